@@ -130,3 +130,57 @@ pub fn run_brainhist(line: &str) -> String {
     }
     outs.join("|")
 }
+
+/// `brainconc <call>|<call>|…`: every call once on the main thread (stateless), then from 16 threads at
+/// once — each thread with its own generator, walking the pool in a different rotation, interleaved
+/// with stateless calls — and every result compared with the single-threaded one.
+pub fn run_brainconc(line: &str) -> String {
+    let f: Vec<&str> = line.split('\t').collect();
+    if f.len() != 2 {
+        return "bad-line".into();
+    }
+    let calls: Vec<Vec<String>> = f[1].split('|').map(|c| c.split(';').map(|s| s.to_string()).collect()).collect();
+    if calls.iter().any(|a| a.len() != 5) {
+        return "bad-call".into();
+    }
+    let eval = |gen: Option<&mut BafflingRecursiveIsotopicPatternGenerator<'static>>, a: &Vec<String>| -> String {
+        let (Some(c), Ok(z), Some(carrier)) = (build_comp(&a[0], &a[4]), a[2].parse::<i32>(), parse_frac(&a[3])) else {
+            return "bad-args".into();
+        };
+        variants(gen, c, &a[1], z, carrier).map(|l| show(&l)).unwrap_or_else(|| "bad-req".into())
+    };
+    let baseline: Vec<String> = calls.iter().map(|a| guarded(|| eval(None, a)).unwrap_or_else(|| "panic".into())).collect();
+    let nthreads = 16;
+    let mut handles = Vec::new();
+    for t in 0..nthreads {
+        let calls = calls.clone();
+        let baseline = baseline.clone();
+        handles.push(std::thread::spawn(move || {
+            let mut gen = BafflingRecursiveIsotopicPatternGenerator::new();
+            let mut bad = Vec::new();
+            for round in 0..3 {
+                for i in 0..calls.len() {
+                    let idx = (i * (t + 1) + t + round) % calls.len();
+                    let g = guarded(|| eval(Some(&mut gen), &calls[idx])).unwrap_or_else(|| "panic".into());
+                    let s = guarded(|| eval(None, &calls[idx])).unwrap_or_else(|| "panic".into());
+                    if g != baseline[idx] || s != baseline[idx] {
+                        bad.push(format!("thread {t} call {idx}: generator-equal={} stateless-equal={}", g == baseline[idx], s == baseline[idx]));
+                    }
+                }
+            }
+            bad
+        }));
+    }
+    let mut bad = Vec::new();
+    for h in handles {
+        match h.join() {
+            Ok(b) => bad.extend(b),
+            Err(_) => bad.push("thread panicked".to_string()),
+        }
+    }
+    if bad.is_empty() {
+        format!("ok {} threads x {} calls x 3 rounds", nthreads, calls.len())
+    } else {
+        format!("mismatch {}", bad[..bad.len().min(5)].join("; "))
+    }
+}
